@@ -12,12 +12,29 @@ def _opt(modname, attr):
         return None
 
 
+def no_long_block(gen):
+    """the list generator queues `BLPOP k 0` (or 1, 100 s) right after a push to k; in programs that MIX families another family's
+    command (DEL, EXPIRE, SET, a STORE) can remove the list in between and the pop then blocks, by design, until its timeout — for
+    timeout 0 for ever, which the harness watchdog would report as HANG.  In mixed programs blocking pops wait at most 50 ms."""
+    def g(rng, keys):
+        argv, ks = gen(rng, keys)
+        if len(argv) >= 3 and argv[0].lower() in (b"blpop", b"brpop"):
+            try:
+                t = float(argv[-1])
+                if t == 0 or t > 0.05:
+                    argv = argv[:-1] + [b"0.05"]
+            except ValueError:
+                pass
+        return argv, ks
+    return g
+
+
 def all_gens():
     """every family's command generator; programs mix families over one key alphabet, so every command also meets keys of other types"""
     gens = [(3, execgen.string_cmd)]
     lg = _opt("execgen_list", "ListGen")
     if lg:
-        gens.append((2, lg()))
+        gens.append((2, no_long_block(lg())))
     for mod, attr in (("execgen_hash", "hash_cmd"), ("execgen_set", "set_cmd"), ("execgen_zset", "zset_cmd"), ("execgen_stream", "stream_cmd")):
         g = _opt(mod, attr)
         if g:
@@ -66,6 +83,7 @@ def conc_scenarios():
     sc = ["counter", "register", "setnx", "expiry", "rearm"]
     if _opt("execgen_list", "ListGen"):
         sc.append("queue")
+        sc.append("bqueue")
     if _opt("execgen_set", "set_cmd"):
         sc.append("set")
     return sc
